@@ -75,6 +75,11 @@ def fp_config(obj, seen=None, depth=0):
         for name, val in sorted(vars(obj).items()):
             if name in SKIP_ATTRS:
                 continue
+            if name.startswith("_") and name != "_properties":
+                # private attributes are not configuration: a correct, properly
+                # invalidated cache must not raise an alarm (behavioural oracles
+                # - repeatability, fresh-twin comparison - judge those)
+                continue
             attrs.append((name, fp_config(val, seen, depth + 1)))
         return ("el", seen[ident], type(obj).__name__, tuple(attrs))
     if isinstance(obj, sut._Property):  # pylint: disable=protected-access
